@@ -34,7 +34,7 @@ ASSUMPTIONS = [
     "for REQs with several filters only events matching exactly one filter are attributed (conservative)",
 ]
 MIN_NONTRIVIAL = {"quick": 300, "thorough": 3000}
-REQUIRED_COUNTERS = ["reqs_truncating", "cap_checks", "recency_checks", "post_dated_events", "filters_with_empty_condition", "purple_imported_before_config", "default_cap_reqs"]
+REQUIRED_COUNTERS = ["reqs_with_repeated_filter", "reqs_truncating", "cap_checks", "recency_checks", "post_dated_events", "filters_with_empty_condition", "purple_imported_before_config", "default_cap_reqs"]
 SHARD_TIMEOUT = {"quick": 500, "thorough": 3000}
 
 
@@ -81,23 +81,36 @@ def judge(backend, cap, filters, delivered, stored, plans, counters):
         verdicts.append({eid: ref.match3(ev, f) for eid, ev in stored.items()})
     single = len(filters) == 1
     plan_name = "+".join(sorted(set(p.split("(")[0] for p in plans))) if backend == "lmdb" else ""
+    canon = [json.dumps(f, sort_keys=True) for f in filters]
     for i, f in enumerate(filters):
+        if canon.index(canon[i]) != i:
+            continue  # a repetition of an earlier filter of this REQ: judged with it
         vd = verdicts[i]
         may = [e for e, v in vd.items() if v in (ref.MUST, ref.MAY)]
         must = [e for e, v in vd.items() if v == ref.MUST]
+        same = {j for j in range(len(filters)) if canon[j] == canon[i]}
 
         def only_this(eid):
-            return all(j == i or verdicts[j].get(eid) == ref.NO for j in range(len(filters)))
+            return all(j in same or verdicts[j].get(eid) == ref.NO for j in range(len(filters)))
 
         attributed = [ev for ev in delivered if isinstance(ev, dict) and ev.get("id") in stored
-                      and vd.get(ev["id"]) in (ref.MUST, ref.MAY) and (single or only_this(ev["id"]))]
+                      and vd.get(ev["id"]) in (ref.MUST, ref.MAY) and (len(same) == len(filters) or only_this(ev["id"]))]
+        if len(same) > 1:
+            # equal filters have equal answers: however often each event is sent, the DISTINCT events sent for them
+            # are bounded by the limit of one of them
+            seen_ids, distinct = set(), []
+            for ev in attributed:
+                if ev["id"] not in seen_ids:
+                    seen_ids.add(ev["id"])
+                    distinct.append(ev)
+            attributed = distinct
         eff = eff_limit(f, cap)
         if len(may) > eff or len(may) in (eff, eff - 1):
             nontrivial = True
         if len(may) > eff:
             counters["reqs_truncating"] = counters.get("reqs_truncating", 0) + 1
         counters["cap_checks"] = counters.get("cap_checks", 0) + 1
-        shape = "single" if single else "multi-filter"
+        shape = "single" if single else ("repeated-filter" if len(same) > 1 else "multi-filter")
         if backend == "lmdb":
             comps = (1 if ("kinds" in f or "authors" in f) else 0) + (1 if any(k.startswith("#") for k in f) else 0)
             mech = "multi-index" if ("ids" not in f and comps == 2) else ("multi-value" if multi_value(f) else "single-value")
@@ -108,7 +121,7 @@ def judge(backend, cap, filters, delivered, stored, plans, counters):
                           "msg": "filter %s (max_limit %d, effective limit %d) was sent %d stored events attributable to it alone"
                                  % (json.dumps(f)[:300], cap, eff, len(attributed))})
         sent_ids = {ev["id"] for ev in delivered if isinstance(ev, dict) and "id" in ev}
-        omitted = [e for e in must if e not in sent_ids and (single or only_this(e))]
+        omitted = [e for e in must if e not in sent_ids and (len(same) == len(filters) or only_this(e))]
         if attributed and omitted:
             counters["recency_checks"] = counters.get("recency_checks", 0) + 1
             oldest_sent = min(stored[ev["id"]]["created_at"] for ev in attributed)
@@ -192,6 +205,10 @@ async def run_store(backend, cap, store_seed, nreqs, counters, coverage, explici
                         f[u.rng.choice([k for k in ("#e", "#p", "kinds", "authors", "ids") if k not in f] or ["#z"])] = []
                         counters["filters_with_empty_condition"] = counters.get("filters_with_empty_condition", 0) + 1
                     fs.append(f)
+                if u.rng.random() < 0.12:
+                    # the same filter several times in one REQ (clients that merge subscriptions send such REQs)
+                    fs = [json.loads(json.dumps(fs[0])) for _ in range(u.rng.choice([2, 2, 3]))] + fs[1:2]
+                    counters["reqs_with_repeated_filter"] = counters.get("reqs_with_repeated_filter", 0) + 1
                 reqs.append(fs)
         for filters in reqs:
             m = tap.mark()
